@@ -189,6 +189,33 @@ func c15ConcRun(c *fw.Case, env *fw.Env) *fw.Obs {
 			history[i].Output = regOut{OK: false}
 		}
 	}
+	// Pruning that keeps the verdict exact for a register with unique written values: an operation with unknown
+	// effect may always be linearized as "no effect", so a failed set whose value no successful read ever returned,
+	// and every failed delete or read, can be left out (leaving them in can only add constraints that the
+	// no-effect choice removes again). Failed sets whose value WAS read stay in, open until the end.
+	observed := map[string]bool{}
+	for _, h := range history {
+		if in := h.Input.(regIn); in.Op == "get" {
+			if out := h.Output.(regOut); out.OK {
+				observed[in.Name+"\x00"+out.Val] = true
+			}
+		}
+	}
+	pruned := history[:0:0]
+	for _, h := range history {
+		in, out := h.Input.(regIn), h.Output.(regOut)
+		if !out.OK {
+			if in.Op == "get" || in.Op == "delete" {
+				continue
+			}
+			if !observed[in.Name+"\x00"+in.Val] {
+				continue
+			}
+		}
+		pruned = append(pruned, h)
+	}
+	o.Ev("concurrent_ops_checked", int64(len(pruned)))
+	history = pruned
 	res, _ := porcupine.CheckOperationsVerbose(c15RegModel, history, 120*time.Second)
 	o.Ev("oracle_evaluations", 1)
 	switch res {
